@@ -40,7 +40,7 @@ Logged == /\ More /\ At(Ev.t) /\ Step
                [] Ev.e = "dr" -> On(Ev.th, Ev.i) /\ DispRet(Ev.th)
                [] Ev.e = "st" -> Ev.th = LT /\ ex[LT].i = Ev.i /\ RunInterval
                [] Ev.e = "ls" -> Ev.th = LT /\ LoopStart
-               [] Ev.e = "lx" -> Ev.th = LT /\ LoopStop
+               [] Ev.e = "lx" -> Ev.th = LT /\ (LoopStop \/ LoopPause)
                [] Ev.e = "id" -> Ev.th = LT /\ (LoopIdle \/ LoopAsleepWithWork)
                [] OTHER -> FALSE
 
